@@ -367,6 +367,13 @@ def run(ctx):
                     if leantag is not None else "observed-last %s\n--- script\n%s" % ((lines[prob[0]] if prob[0] < len(lines) else "").strip(), HC.script_prefix(script, prob[0])))
             ctx.violation("c08-%s" % f.name, "# C08 violated on the implementation's own transcript (abstract-file semantics of the statement)\n# format %s, %d channel(s), type %s, route %s\n# at script line %d: %s\n# %s\n%s"
                           % (f.name, ch, ty, route, prob[0], sl[prob[0]][:100] if prob[0] < len(sl) else "", prob[1], body))
+    # ---- C: files WITH CONTENT BEHIND THE AUDIO, raw reads / writes, every entry point after every other (vlib/rdwrtail.py; Sf.Abs decides) ----
+    from .. import rdwrtail
+    if rdwrtail.run_c08(ctx, fs, quick):
+        found = True
+    from .. import querycamp
+    if querycamp.run(ctx, "C08", parts=("rw",)):      # queries between writes / reads of a read/write handle
+        found = True
     ctx.notes["rdwr_refused_at_open"] = skipped
     ctx.notes["known_finding_class_hits"] = kf_hits
     corr = [x for x in fa if x.kind == "corr"]
